@@ -104,9 +104,20 @@ let pow_steps_line line =
     Printf.sprintf "%s %s %s %s = %s" op a b p r
   | _ -> "bad-line"
 
+(* ---- `shl|shr l r p`: the recursion as written (Field.shift_w, fuel 64) with its work record ---- *)
+let shift_work_line line =
+  match Stdlib.String.split_on_char ' ' (Stdlib.String.trim line) with
+  | [op; a; b; p] when op = "shl" || op = "shr" ->
+    let (res, w) = Field.shift_w (nat_of_int 64) (op = "shl") (z_of_hex a) (z_of_hex b) (z_of_hex p) in
+    let built = match w.Field.sw_built with Some k -> hex_of_z k | None -> "-" in
+    Printf.sprintf "%s %s %s %s = %s calls %d built %s bits %d" op a b p (show_outcome res)
+      (int_of_nat w.Field.sw_calls) built (int_of_z w.Field.sw_bits)
+  | _ -> "bad-line"
+
 let () =
   match Array.to_list Sys.argv with
   | _ :: "pow-steps" :: _ -> each_line pow_steps_line
+  | _ :: "shift-work" :: _ -> each_line shift_work_line
   | _ :: "dispatch-loop" :: _ -> each_line (dispatch_line 0)
   | _ :: "dispatch" :: _ -> each_line (dispatch_line 1)
   | _ :: "dispatch-doc" :: _ -> each_line (dispatch_line 2)
